@@ -7,6 +7,7 @@ where
   Item: Clone + Send + Sync,
 {
   take_op: operators::Take<Item>,
+  skip_op: operators::Skip<Item>,
 }
 
 impl<'a, Item> ElementAt<Item>
@@ -14,12 +15,17 @@ where
   Item: Clone + Send + Sync,
 {
   pub fn new(count: usize) -> ElementAt<Item> {
+    // the count-th item (1-based) is what is left of the first `count`
+    // items after dropping `count - 1` of them; a shorter source leaves
+    // nothing
     ElementAt {
       take_op: operators::Take::<Item>::new(count),
+      skip_op: operators::Skip::<Item>::new(count.saturating_sub(1)),
     }
   }
   pub fn execute(&self, source: Observable<'a, Item>) -> Observable<'a, Item> {
     let take_op = self.take_op.clone();
+    let skip_op = self.skip_op.clone();
 
     Observable::<Item>::create(move |s| {
       let source = source.clone();
@@ -29,9 +35,8 @@ where
       let sctl_error = sctl.clone();
       let sctl_complete = sctl.clone();
 
-      take_op
-        .execute(source)
-        .last()
+      skip_op
+        .execute(take_op.execute(source))
         .inner_subscribe(sctl.new_observer(
           move |_, x| {
             sctl_next.sink_next(x);
